@@ -75,6 +75,8 @@ def build_map(layout):
         elif r["place"] == "unaligned":
             a = int(r["addr_r"] * (1 << aw))
             kw["addr"] = a // (1 << al) * (1 << al)
+        elif r["place"] == "absolute":
+            kw["addr"] = r["addr_abs"]
         try:
             mm.add_resource(p, name=(f"reg{i}",), size=size, **kw)
         except ValueError:
@@ -114,7 +116,6 @@ def run_mux_case(case, judged):
             mon.fail(name, msg, **detail)
         else:
             mon.count("foreign_monitor_fired:" + name)
-            raise Stop()
 
     # ---- stimulus generator: yields dict(addr, r_stb, w_stb, w_data) per cycle
     def conforming():
